@@ -274,4 +274,6 @@ def run_failed_opens(ctx):
     ctx.notes["failed_open_accepted"] = oks
     ctx.notes["failed_open_sd2_material"] = have_sd2
     ctx.sample({"kind": "failed open", "case": cases[0].name if cases else None, "op": cases[0].op if cases else None})
-    return found
+    from . import lateopen
+    late_found, _ = lateopen.run_for(ctx, "C09", L, fmts)       # inputs rejected after each allocating chunk of each container (vlib/lateopen.py)
+    return found or late_found
